@@ -252,6 +252,9 @@ def c01(rep, tier):
     r_parsers.run_closed(p, rep)
     r_parsers.run_filter_arity(p, rep)
     r_parsers.run_nodrop(p, rep)
+    r_parsers.run_unclosed(p, rep)
+    r_parsers.run_source_verbatim(p, rep)
+    r_lock.run_global_setters(p, rep)
     r_term.run(p, rep, pr, "parse")
     r_term.run_parse_cost(p, rep, pr)
     rep.analysed["config:all"] = {"bodies": len(p.fns), "parse_reachable": len(pr)}
@@ -293,6 +296,8 @@ def c03(rep, tier):
     r_parsers.run_escape_closer(p, rep)
     r_parsers.run_nodrop(p, rep)
     r_parsers.run_bodykeep(p, rep)
+    r_parsers.run_source_verbatim(p, rep)
+    r_lock.run_global_setters(p, rep)
     r_verbatim.buffered_render(p, rep)
     r_utf8sink.run(p, rep)
     rep.analysed["config:all"] = {"bodies": len(p.fns)}
